@@ -569,6 +569,7 @@ impl RHistory {
         let clock = self.mon(e).clock;
         let mut total_payload = 0u64;
         let mut chan_seq: Vec<(bool, u8)> = vec![];
+        let emitted_now = pkts.len();
         for bytes in pkts {
             if bytes.len() > 1300 {
                 self.violate("C13", format!("packet of {} bytes returned by get_packets_to_send of {:?}", bytes.len(), e));
@@ -680,6 +681,25 @@ impl RHistory {
         if total_payload > budget {
             self.violate("C14", format!("{:?} emitted {} payload bytes in one tick, budget is {}", e, total_payload, budget));
         }
+        // C14: an unreliable sliced message goes out whole or not at all
+        {
+            let mut groups: HashMap<(u8, u64), (usize, HashSet<usize>)> = HashMap::new();
+            let n = self.mons.get(&e).map(|m| m.outs.len()).unwrap_or(0);
+            let first = n.saturating_sub(emitted_now);
+            if let Some(m) = self.mons.get(&e) {
+                for o in &m.outs[first..] {
+                    if let Some(Packet::UnreliableSlice { channel_id, slice, .. }) = &o.pkt {
+                        let g = groups.entry((*channel_id, slice.message_id)).or_insert((slice.num_slices, HashSet::new()));
+                        g.1.insert(slice.slice_index);
+                    }
+                }
+            }
+            for ((ch, id), (num, idxs)) in groups {
+                if idxs.len() != num {
+                    self.violate("C14", format!("{:?} put {} of the {} slices of unreliable message {} of channel {} on the wire: it is dropped whole or sent whole", e, idxs.len(), num, id, ch));
+                }
+            }
+        }
         // channels are served in configuration order, each channel's packets contiguous
         let mut pos = 0usize;
         for c in &chan_seq {
@@ -716,6 +736,9 @@ impl RHistory {
                 }
             }
             if let Some((part, last)) = late {
+                if part.2.is_some() {
+                    self.violate("C14", format!("{:?} left slice {:?} waiting although {} bytes of the tick's budget were unused: what fits goes out slice by slice", e, part, budget - total_payload));
+                }
                 self.violate("C15", format!("{:?} did not transmit {:?} in this tick although {} bytes of budget were left and {}", e, part, budget - total_payload, match last { None => "it was never transmitted".to_string(), Some(t) => format!("its last transmission was {} ns ago", clock - t) }));
             }
         }
